@@ -1,0 +1,28 @@
+//go:build verif
+
+package runtime
+
+import "github.com/arnodel/golua/runtime/internal/luagc"
+
+// Hooks for the /verif framework (C18): re-export the internal luagc package
+// through type aliases and thin wrappers.  Add-only, "verif" build tag only.
+
+type VerifGCPool = luagc.Pool
+type VerifClonePool = luagc.ClonePool
+type VerifMarkFlags = luagc.MarkFlags
+type VerifGCValue = luagc.Value
+type VerifGCKey = luagc.Key
+type VerifGCEntry = luagc.VerifEntry
+
+const (
+	VerifFinalize = luagc.Finalize
+	VerifRelease  = luagc.Release
+)
+
+// VerifNewClonePool is luagc.NewClonePool.
+func VerifNewClonePool() *luagc.ClonePool { return luagc.NewClonePool() }
+
+// VerifSetFinalizerHook is luagc.VerifSetFinalizerHook.
+func VerifSetFinalizerHook(f func(obj interface{}, finalizer interface{})) func() {
+	return luagc.VerifSetFinalizerHook(f)
+}
